@@ -230,6 +230,19 @@ def py_side(model, proto, rng, quick, stats, viols, ctx):
         if why:
             viols.append(({"class": "items_depend_on_block_partition", "lang": "python", "format": "binary"}, doc(model, proto, vals, parts, ctx, "py_read", why)))
             continue
+        # read side, delivery: the same bytes arriving in pieces (a raw source that hands out what it has; a named pipe)
+        mode_ = r.fork("delivery").choice(["small", "mixed", "bytewise", "mixed"] if len(data) < 20000 else ["mixed", "mixed", "small"])
+        stats["py_reads_with_piecewise_delivery"] = stats.get("py_reads_with_piecewise_delivery", 0) + 1
+        stats["runs"] += 1
+        try:
+            with runner.time_limit(60):
+                d3, err3, closed3 = P.read_all(model, proto, "binary", P.SimRaw(data, P.make_chunker(r.fork("chunks"), mode_)), collect=collect)
+        except runner.Hang as e:
+            d3, err3, closed3 = [], RuntimeError("reader did not terminate: %s" % e), False
+        why3 = ("reader raised %r" % (err3,)) if err3 is not None else sw.flat_equal(env, ns, proto, flat, d3)
+        if why3:
+            viols.append(({"class": "items_depend_on_how_the_bytes_arrive", "lang": "python", "format": "binary"}, doc(model, proto, vals, parts, ctx, "py_read_pieces", why3 + " | delivery: " + mode_, hist_seed=[rep, 0])))
+            continue
         # read side, NDJSON: the reference document (one line per item) read by the generated reader
         if finite:
             try:
@@ -640,6 +653,12 @@ def replay_doc(doc_, ybin, root):
                 return cls == "reader_raised_on_valid_stream", repr(err)
             why = sw.flat_equal(env, ns, proto, flat, d)
             return bool(why), why
+        if doc_["pipeline"] == "py_read_pieces":
+            why_all = ""
+            for mode_ in ("small", "mixed", "bytewise"):
+                d, err, closed = P.read_all(model, proto, "binary", P.SimRaw(data, P.make_chunker(M.derive(doc_["seed"], "replay-chunks", mode_), mode_)))
+                why_all = why_all or (("reader raised %r" % (err,)) if err is not None else sw.flat_equal(env, ns, proto, flat, d))
+            return bool(why_all), why_all
         if doc_["pipeline"] == "py_read_ndjson":
             d, err, closed = P.read_all(model, proto, "ndjson", io.StringIO(codec.encode_ndjson(proto, ns, schema, vals)))
             if err is not None:
@@ -717,7 +736,7 @@ def main():
                stubbed="C++: nd-array header (cpp.overrideArrayHeader) and date/date.h are verification stubs; harness main emitted from the generated protocols.h",
                assumptions=["reference codec per docs/reference, with int8/uint8 as one raw byte"],
                replay_fn=replay_doc, quick_budget=150,
-               fault_keys=("value_straddles_refill", "empty_write_call", "generator_path", "list_path", "tuple_path", "sized_iterable_path(deque, dict view)", "one_shot_iterator_path(iter, map)", "numpy_array_as_iterable", "producer_reusing_one_object", "items_handed_over_in_a_reused_object", "cpp_previous_version_streams", "py_ndjson_reads", "block_end_on_buffer_boundary", "cpp_relay", "cpp_script", "cpp_ndjson_relay", "cpp_ndjson_script", "cpp_cppnd_relay", "cpp_cppnd_script", "py_write_histories"))
+               fault_keys=("value_straddles_refill", "empty_write_call", "generator_path", "list_path", "tuple_path", "sized_iterable_path(deque, dict view)", "one_shot_iterator_path(iter, map)", "numpy_array_as_iterable", "producer_reusing_one_object", "items_handed_over_in_a_reused_object", "cpp_previous_version_streams", "py_ndjson_reads", "py_reads_with_piecewise_delivery", "block_end_on_buffer_boundary", "cpp_relay", "cpp_script", "cpp_ndjson_relay", "cpp_ndjson_script", "cpp_cppnd_relay", "cpp_cppnd_script", "py_write_histories"))
 
 
 if __name__ == "__main__":
